@@ -10,3 +10,8 @@ Definition mkreq (c : option str) (i a : str) : req := {| cookie := c; ip := i; 
 
 Definition obs_session (shat : list (str * str)) (h : list (req * action * str)) : T :=
   Tlist (fun o : str * data => Tl [Tb (fst o); Topt TN (snd o)]) (run (sha_of shat) [] h).
+
+(* http.cookies.SimpleCookie as an oracle: raw Cookie header -> value of the session cookie
+   (None = the name is not in request.cookie), recorded from the real Request *)
+Definition cookie_tbl (ct : list (str * option str)) (raw : str) : option str :=
+  match lookup raw ct with Some v => v | None => None end.
